@@ -24,6 +24,7 @@ import (
 	"github.com/libsv/go-bt/v2"
 	"github.com/libsv/go-bt/v2/bscript"
 	"github.com/libsv/go-bt/v2/bscript/interpreter"
+	"github.com/libsv/go-bt/v2/bscript/interpreter/scriptflag"
 	"github.com/libsv/go-bt/v2/unlocker"
 	"github.com/libsv/go-bt/v2/zzverif/vsync"
 
@@ -430,6 +431,21 @@ func feeQuotesBodiesNotes(sc scenario) ([]func(), *[]string, func()) {
 type engCase struct {
 	name string
 	opts func() []interpreter.ExecutionOptionFunc
+	// withShared builds the option list around an option VALUE that all Execute calls of one
+	// run share (an option is a value: using it in one call must not change what it means in another)
+	withShared func(shared interpreter.ExecutionOptionFunc) []interpreter.ExecutionOptionFunc
+}
+
+// options returns the option list of the case for one Execute call.
+func (c engCase) options(shared interpreter.ExecutionOptionFunc) []interpreter.ExecutionOptionFunc {
+	if c.withShared != nil {
+		return c.withShared(shared)
+	}
+	return c.opts()
+}
+
+func newSharedOption() interpreter.ExecutionOptionFunc {
+	return interpreter.WithFlags(scriptflag.VerifyMinimalData)
 }
 
 var (
@@ -477,6 +493,14 @@ func buildEngineCases() []engCase {
 			{name: "if-else else-branch, nested", opts: func() []interpreter.ExecutionOptionFunc {
 				return []interpreter.ExecutionOptionFunc{interpreter.WithScripts(bscript.NewFromBytes([]byte{0x63, 0x00, 0x67, 0x51, 0x63, 0x51, 0x67, 0x00, 0x68, 0x68}), bscript.NewFromBytes([]byte{0x00})), interpreter.WithAfterGenesis()}
 			}},
+			// the same option value used by calls that differ in the options around it: OP_RETURN
+			// with a true item ends successfully after genesis and fails before
+			{name: "1 | RETURN after genesis, shared option last", withShared: func(sh interpreter.ExecutionOptionFunc) []interpreter.ExecutionOptionFunc {
+				return []interpreter.ExecutionOptionFunc{interpreter.WithScripts(bscript.NewFromBytes([]byte{0x6a}), bscript.NewFromBytes([]byte{0x51})), interpreter.WithAfterGenesis(), sh}
+			}},
+			{name: "1 | RETURN before genesis, shared option", withShared: func(sh interpreter.ExecutionOptionFunc) []interpreter.ExecutionOptionFunc {
+				return []interpreter.ExecutionOptionFunc{interpreter.WithScripts(bscript.NewFromBytes([]byte{0x6a}), bscript.NewFromBytes([]byte{0x51})), sh}
+			}},
 			{name: "two OP_ELSE (rejected after genesis)", opts: func() []interpreter.ExecutionOptionFunc {
 				return []interpreter.ExecutionOptionFunc{interpreter.WithScripts(bscript.NewFromBytes([]byte{0x63, 0x51, 0x67, 0x00, 0x67, 0x51, 0x68}), bscript.NewFromBytes([]byte{0x51})), interpreter.WithAfterGenesis()}
 			}},
@@ -488,6 +512,7 @@ func buildEngineCases() []engCase {
 func runEngine(sc scenario, prefix []int) execution {
 	cases := buildEngineCases()
 	eng := interpreter.NewEngine()
+	shared := newSharedOption()
 	verd := make([]string, len(sc.Threads))
 	var bodies []func()
 	for ti, th := range sc.Threads {
@@ -497,7 +522,7 @@ func runEngine(sc scenario, prefix []int) execution {
 			for _, o := range th {
 				var idx int
 				fmt.Sscanf(o, "exec%d", &idx)
-				err := eng.Execute(cases[idx].opts()...)
+				err := eng.Execute(cases[idx].options(shared)...)
 				vs = append(vs, fmt.Sprint(err == nil))
 			}
 			verd[ti] = strings.Join(vs, ",")
@@ -515,7 +540,7 @@ func engineSequential(sc scenario) []string {
 		for _, o := range th {
 			var idx int
 			fmt.Sscanf(o, "exec%d", &idx)
-			err := interpreter.NewEngine().Execute(cases[idx].opts()...)
+			err := interpreter.NewEngine().Execute(cases[idx].options(newSharedOption())...)
 			vs = append(vs, fmt.Sprint(err == nil))
 		}
 		out[ti] = strings.Join(vs, ",")
@@ -720,8 +745,11 @@ func scenarios(thorough bool) []scenario {
 		scenario{Name: "engine-2x2", Kind: "engine", Threads: [][]string{{"exec0", "exec3"}, {"exec2", "exec4"}}},
 		scenario{Name: "engine-3b", Kind: "engine", Threads: [][]string{{"exec4"}, {"exec1"}, {"exec0"}}},
 		scenario{Name: "engine-cond-2", Kind: "engine", Threads: [][]string{{"exec5"}, {"exec6"}}},
-		scenario{Name: "engine-cond-2x2", Kind: "engine", Threads: [][]string{{"exec5", "exec7"}, {"exec6", "exec5"}}},
-		scenario{Name: "engine-cond-3", Kind: "engine", Threads: [][]string{{"exec6"}, {"exec7"}, {"exec0"}}},
+		scenario{Name: "engine-cond-2x2", Kind: "engine", Threads: [][]string{{"exec5", "exec9"}, {"exec6", "exec5"}}},
+		scenario{Name: "engine-cond-3", Kind: "engine", Threads: [][]string{{"exec6"}, {"exec9"}, {"exec0"}}},
+		scenario{Name: "engine-shared-option-2", Kind: "engine", Threads: [][]string{{"exec7"}, {"exec8"}}},
+		scenario{Name: "engine-shared-option-2x2", Kind: "engine", Threads: [][]string{{"exec7", "exec8"}, {"exec8", "exec7"}}},
+		scenario{Name: "engine-shared-option-3", Kind: "engine", Threads: [][]string{{"exec8"}, {"exec7"}, {"exec8"}}},
 	)
 	return out
 }
@@ -809,7 +837,7 @@ func main() {
 	r.Note("feequote_scenarios_with_a_single_outcome", singleOutcome)
 	r.Sample("schedule", map[string]any{"scenario": scs[13], "schedule": []int{0, 1, 0}})
 	r.Sample("schedule", map[string]any{"scenario": scs[len(scs)-2], "note": "engine: Execute has no lock operations; interleavings reduce to start orders, shared-state writes are caught by the happens-before monitor"})
-	os.Exit(r.Finish("stateless schedule exploration of the real fees.go / interpreter code (instrumented from the working tree at check time) under a cooperative scheduler: scheduling points before every Lock/RLock (a write lock first announces itself, modelling writer preference), at thread start and end; DFS over choice prefixes with iterative preemption bound 0,1,2 and then unbounded, every scenario explored to completion. Scenarios: every unordered pair of the 11 FeeQuote operations on 2 threads, triples of the 6 core operations on 3 threads, 2x2 combinations, every pair (thorough: triple) of 10 FeeQuotes operations incl. operations on the quote it hands out, and 2-3 threads calling Execute on one engine with distinct transactions (P2PKH spends, script-only runs, post-genesis conditionals). Oracles on every schedule: vector-clock happens-before race detection over EVERY access the type-checked instrumentation finds in packages bt, bscript and bscript/interpreter (struct fields reached through a pointer, package-level variables, locals aliasing a map/slice field) plus the harness's own reads of the *Fee values it is handed, deadlock, panics, linearizability against a plain-map sequential model (brute force over orders consistent with real time), every read returns a stored Fee/quote object reading as it was stored and no stored Fee object is modified in place, concurrent verdicts = sequential verdicts; recorded schedules replay deterministically (each finding is re-executed before it is reported)"))
+	os.Exit(r.Finish("stateless schedule exploration of the real fees.go / interpreter code (instrumented from the working tree at check time) under a cooperative scheduler: scheduling points before every Lock/RLock (a write lock first announces itself, modelling writer preference), at thread start and end; DFS over choice prefixes with iterative preemption bound 0,1,2 and then unbounded, every scenario explored to completion. Scenarios: every unordered pair of the 11 FeeQuote operations on 2 threads, triples of the 6 core operations on 3 threads, 2x2 combinations, every pair (thorough: triple) of 10 FeeQuotes operations incl. operations on the quote it hands out, and 2-3 threads calling Execute on one engine with distinct transactions (P2PKH spends, script-only runs, post-genesis conditionals, calls that share one option value). Oracles on every schedule: vector-clock happens-before race detection over EVERY access the type-checked instrumentation finds in packages bt, bscript and bscript/interpreter (struct fields reached through a pointer, package-level variables, locals aliasing a map/slice field) plus the harness's own reads of the *Fee values it is handed, deadlock, panics, linearizability against a plain-map sequential model (brute force over orders consistent with real time), every read returns a stored Fee/quote object reading as it was stored and no stored Fee object is modified in place, concurrent verdicts = sequential verdicts; recorded schedules replay deterministically (each finding is re-executed before it is reported)"))
 }
 
 // freeRun executes the scenario bodies without the scheduler (real mutexes, real
@@ -839,6 +867,7 @@ func freeRun() {
 			case "engine":
 				cases := buildEngineCases()
 				eng := interpreter.NewEngine()
+				shared := newSharedOption()
 				for _, th := range sc.Threads {
 					wg.Add(1)
 					go func(th []string) {
@@ -846,7 +875,7 @@ func freeRun() {
 						for _, o := range th {
 							var idx int
 							fmt.Sscanf(o, "exec%d", &idx)
-							_ = eng.Execute(cases[idx].opts()...)
+							_ = eng.Execute(cases[idx].options(shared)...)
 						}
 					}(th)
 				}
